@@ -8,7 +8,7 @@ from checks import c13 as C13
 TRUST = ("Lean 4.33 kernel; axioms at most propext/Classical.choice/Quot.sound (audited per run); "
          "hand-written selection model tied to the C++ by the exact correspondence harness (differential, generator-bounded); ")
 MANIFEST = dict(
-  text=("Theorems (Props/C14.lean, 19) about executable Lean models tied to the real classes. Selection: for every rank vector (duplicates, single front, "
+  text=("Theorems (Props/C14.lean, 22) about executable Lean models tied to the real classes. Selection: for every rank vector (duplicates, single front, "
         "mu = n), every 1 <= mu <= n, IndicatorBasedSelection marks exactly mu individuals, never keeps a worse non-domination rank while discarding a "
         "better one, keeps whole better fronts; the hypothesis 'the indicator returns K distinct positions of the front' is now DISCHARGED for the modelled "
         "indicators: the leastContributors loop shared by HypervolumeIndicator / CrowdingDistance / AdditiveEpsilonIndicator returns K distinct positions for "
@@ -21,16 +21,22 @@ MANIFEST = dict(
         "has exactly mu members and every member carries point and fitness vectors of a parent or offspring; composed over whole runs (any number of steps, "
         "arbitrary variation operators and random streams): |population| = mu, value = f(closest feasible point) for every member at every step, and, "
         "when the variation is followed by the clamp of SBX/polynomial mutation, every point inside the box. libstdc++'s std::partition + erase keeps exactly the "
-        "selected individuals (elitism of the truncation). Steady-state hypervolume monotonicity is a spec-level theorem (hvSpec, two cases). "
+        "selected individuals, and composed with the count theorem (generational_update_elitist, no hypothesis on the flags): NSGA-II/NSGA-III/MO-CMA-ES keep exactly the mu "
+        "marked individuals and no marked individual has a worse rank than a discarded one. Steady-state hypervolume monotonicity is composed END TO END for the "
+        "modelled SMS-EMOA step (append offspring, IndicatorBasedSelection, replace the first unselected parent), every number of objectives, every population and "
+        "offspring strictly below the fixed reference point, and every leastContributor routine that returns a position of minimal contribSpec on fronts "
+        "(steady_update_hv_monotone_partial; instance: the specification-level indicator specLeast, steady_update_hv_monotone_spec_indicator). "
         "Tie: exact correspondence on integer populations for selection with exact flags (which individual the indicator discards), evaluator, tournament "
         "(rng draws observed), and state-by-state for multi-step histories of updatePopulation() of the real SMSEMOA, SteadyStateMOCMA, MOCMA, "
         "IndicatorBasedRealCodedNSGAII<HV|Eps|Crowding>, MOEAD, RVEA objects (offspring from the real generateOffspring(), points/fitness overwritten by "
         "integers); independent oracles for size, solution() mirror, survivors from the pool, rank elitism, hypervolume monotonicity; plus oracle-checked "
         "runs of the seven real optimizers on ZDT/DTLZ (init with own / fewer / exactly mu / more start points)."),
-  note=TRUST + "NOT proved: (1) steady-state hypervolume monotonicity is not composed end-to-end from the indicator model (it needs "
-       "'the modelled 2-D contribution equals contribSpec on a front', which is tied by correspondence and the hvdecrease oracle on integer histories only); "
-       "(2) the composition 'flags of applySelect have exactly mu marks' -> truncation_keeps_exactly_the_selected is a hypothesis of that theorem (count theorem is about "
-       "the flag list); (3) NSGA3Indicator: the niche-counting loop has an executable model (nsga3Least) but neither theorem nor exact tie (its association step is "
+  note=TRUST + "NOT proved: (1) that the modelled C++ routines hvLeast2d / hvLeast3d (literal sentinel formula of HypervolumeContribution2D, hvWfg differences "
+       "in 3-D) return a position of minimal contribSpec on a front ('2-D contribution formula = contribSpec'), i.e. the hypothesis LeastContribOn of "
+       "steady_update_hv_monotone_partial for the real indicator: tied by exact correspondence of the discarded individual and the exact hvdecrease oracle on integer "
+       "histories only; also partial in the sense that populations with a member on/beyond the reference point are excluded (the real 3-D routine reads out of "
+       "bounds there: finding F-C14-2, patch validated); (2) steady-state MO-CMA-ES adds sortRankOneToFront (a proved permutation) — the hypervolume theorem is stated for the "
+       "SMS-EMOA update; (3) NSGA3Indicator: the niche-counting loop has an executable model (nsga3Least) but neither theorem nor exact tie (its association step is "
        "floating point behind a linear solve; compared through the count only, the NSGA-III update itself is the NSGA-II template tied with three other indicators); "
        "(4) RVEA/MOEA-D: the floating-point parts (cosines, angle-penalised distances, lattice neighbourhoods by std::sort) and the rng draws of the "
        "tournament enter the model as observed inputs (aux pass of the harness, re-verified in the comparison pass); reference-vector adaptation not modelled; "
